@@ -95,7 +95,7 @@ func c15Value(r *rand.Rand, o c15Opt) string {
 		}
 		return choose(r, []string{"a", "a,b", " a , b ,, c ", "x-y,z_1", "passing,warning", "ünï,ö"})
 	default: // string
-		return choose(r, []string{"foo", "foo bar", "a=b", "a;b", "a,b", "\"quoted\"", "'single'", "ünï cödé", "x:y", "#hash", "!bang", "back\\slash", "tab\there", " lead", "trail ", "$remote_addr $request", "100%", "-dash", "--", "a\\nb"})
+		return choose(r, []string{"", "", "foo", "foo bar", "a=b", "a;b", "a,b", "\"quoted\"", "'single'", "ünï cödé", "x:y", "#hash", "!bang", "back\\slash", "tab\there", " lead", "trail ", "$remote_addr $request", "100%", "-dash", "--", "a\\nb"})
 	}
 }
 
